@@ -330,18 +330,29 @@ pub fn run_law(op: &str, args: &[String]) -> String {
                 obs(&b.derivative(all.clone()))
             )
         }
-        "law.forall.many" | "law.exists.many" => {
-            // an expression over 12 variables with 11 of them eliminated (the trees double per variable)
-            let k = 12usize;
+        "law.forall.many" | "law.exists.many" | "law.deriv.many" => {
+            // an expression over 12 variables with 11 of them eliminated (the trees double per variable);
+            // for n > 12: two literals, one of them eliminated together with n - 1 foreign names (the
+            // number of *eliminated* names is what the cost of the fold depends on)
+            // (the expression derivative quadruples the tree per variable: two literals and n - 1 foreign
+            // names at every size)
+            let wide_elim = n > 12 || op == "law.deriv.many";
+            let k = if wide_elim { 2usize } else { 12usize };
             let lits: Vec<E> = (0..k).map(|i| lit(i, (seed >> i) & 1 == 0)).collect();
             let e: E = if seed % 2 == 0 { Expression::n_ary_or(&lits) } else { Expression::n_ary_and(&lits) };
             let keep = (seed as usize / 2) % k;
-            let vs: BTreeSet<String> = (0..k).filter(|i| *i != keep).map(var).collect();
-            let r = if op == "law.forall.many" { e.universal_quantification(vs.clone()) } else { e.existential_quantification(vs.clone()) };
+            let mut vs: BTreeSet<String> = (0..k).filter(|i| *i != keep).map(var).collect();
+            if wide_elim {
+                for i in 0..n - 1 {
+                    // foreign names in front of, between and behind the two inputs
+                    vs.insert(match i % 3 { 0 => format!("u{:02}", i), 1 => format!("v000_{:02}", i), _ => format!("w{:02}", i) });
+                }
+            }
+            let r = if op == "law.forall.many" { e.universal_quantification(vs.clone()) } else if op == "law.exists.many" { e.existential_quantification(vs.clone()) } else { e.derivative(vs.clone()) };
             // the result depends on the kept variable only: both of its values
             let at = |b: bool| -> bool { r.evaluate(&[(var(keep), b)].into_iter().collect()) };
             let src_clause: Clauses = vec![(0..k).map(|i| (var(i), (seed >> i) & 1 == 0)).collect()];
-            format!("(L {} {} {} {} {} {})", enc_clauses(&src_clause), enc_bool(seed % 2 == 0), enc_name(&var(keep)), enc_names(r.inputs().iter()), enc_bool(at(false)), enc_bool(at(true)))
+            format!("(L {} {} {} {} {} {} {})", enc_clauses(&src_clause), enc_bool(seed % 2 == 0), enc_name(&var(keep)), enc_names(r.inputs().iter()), enc_bool(at(false)), enc_bool(at(true)), enc_bool(wide_elim))
         }
         "law.weight" => {
             // complement law and inclusion-exclusion, on exact big integers; both operands over the
@@ -511,6 +522,38 @@ pub fn run_law(op: &str, args: &[String]) -> String {
                 "(L {} {} ({}) {} {} {} {} ({}) {} {})",
                 enc_clauses(&ca), enc_names(uni.iter()), rows.join(" "), v_full, enc_bits(&v_def1), enc_bits(&v_def0), ck,
                 sparse_enc.join(" "), enc_bits(&s_def1), enc_bits(&s_def0)
+            )
+        }
+        "law.cmp" if kind == "E" && n >= 20 => {
+            // at the cost wall of the enumerating comparison (2^n assignment maps): literals are small
+            // integers, which keeps the maps affordable; the variant with one more declared input is left out
+            let clauses8 = |cs: &Clauses| -> Expression<u8> {
+                let mut xs: Vec<Expression<u8>> = cs
+                    .iter()
+                    .map(|c| {
+                        let lits: Vec<Expression<u8>> = c
+                            .iter()
+                            .map(|(v, p)| {
+                                let l: Expression<u8> = ExpressionNode::Literal(v[1..].parse::<u8>().expect("HARNESS: var index")).into();
+                                if *p { l } else { !l }
+                            })
+                            .collect();
+                        if lits.len() == 1 { lits[0].clone() } else { Expression::n_ary_and(&lits) }
+                    })
+                    .collect();
+                if xs.len() == 1 { xs.pop().unwrap() } else { Expression::n_ary_or(&xs) }
+            };
+            let mut rev = ca.clone();
+            rev.reverse();
+            let widest = (0..ca.len()).max_by_key(|i| ca[*i].len()).unwrap();
+            let mut cg = ca.clone();
+            let last = cg[widest].len() - 1;
+            cg[widest][last].1 = !cg[widest][last].1;
+            let (a8, f8, g8, c8) = (clauses8(&ca), clauses8(&rev), clauses8(&cg), clauses8(&vec![ca[widest].clone()]));
+            format!(
+                "(L {} {} {} {} {} {} {} {} {})",
+                enc_clauses(&ca), enc_clauses(&rev), enc_clauses(&cg), widest,
+                enc_bool(a8.is_equivalent(&f8)), enc_bool(a8.is_equivalent(&g8)), enc_bool(a8.is_implied_by(&c8)), enc_bool(c8.is_implied_by(&a8)), enc_bool(true)
             )
         }
         "law.cmp" => {
@@ -704,7 +747,7 @@ pub fn gen_laws(cx: &mut crate::gen::Ctx, prop: &str) {
         "C08" => &["law.subst"],
         "C05" => &["law.restrict"],
         "C06" => &["law.exists", "law.forall", "law.elimall", "law.forall.many", "law.exists.many"],
-        "C07" => &["law.deriv", "law.elimall"],
+        "C07" => &["law.deriv", "law.elimall", "law.deriv.many"],
         "C09" => &["law.essential"],
         "C10" => &["law.weight"],
         "C11" => &["law.nnf", "law.cnf", "law.dnf"],
@@ -737,20 +780,27 @@ pub fn gen_laws(cx: &mut crate::gen::Ctx, prop: &str) {
         let kinds: Vec<(&str, Vec<usize>)> = if op.starts_with("law.conv.") {
             // the source kind is fixed by the direction; tables are exponential in n
             let dir = &op[9..];
-            let sizes: Vec<usize> = if dir.contains('T') { vec![6, 7, 8, 9, 10, 12] } else { vec![8, 16, 17, 32, 33, 54, 64, 65] };
+            // tables: up to the cost wall of the enumerating conversions (2^n assignment maps for E -> T)
+            let sizes: Vec<usize> = if dir.contains('T') {
+                if cx.thorough && dir != "TE" { vec![6, 7, 8, 9, 10, 12, 16, 17, 20, 21] } else { vec![6, 7, 8, 9, 10, 12, 16, 17] }
+            } else {
+                vec![8, 16, 17, 32, 33, 54, 64, 65, 128, 129, 257]
+            };
             vec![("-", sizes)]
         } else {
             vec![
-                ("E", if *op == "law.weight" || *op == "law.essential" { vec![6, 9, 12] } else if *op == "law.cmp" { vec![6, 9, 12, 16, 17] } else { vec![8, 16, 17, 32, 33, 40] }),
+                ("E", if *op == "law.weight" || *op == "law.essential" { if cx.thorough { vec![6, 9, 12, 16, 17, 20, 21] } else { vec![6, 9, 12, 16, 17] } } else if *op == "law.cmp" { if cx.thorough { vec![6, 9, 12, 16, 17, 20, 21, 22] } else { vec![6, 9, 12, 16, 17, 21] } } else { vec![8, 16, 17, 32, 33, 40] }),
                 // tables are exponential in the inputs: 16 and 17 inputs only for the unary operations
                 ("T", if ["law.restrict", "law.exists", "law.forall", "law.deriv", "law.eval"].contains(op) { if cx.thorough { vec![5, 6, 7, 8, 9, 10, 11, 12, 14, 16, 17] } else { vec![6, 7, 8, 9, 10, 12, 16] } } else { vec![6, 7, 8, 9, 10, 12] }),
-                ("B", if cx.thorough { vec![8, 16, 17, 31, 32, 33, 53, 54, 63, 64, 65, 90] } else { vec![8, 16, 17, 32, 33, 54, 64, 65] }),
+                ("B", if cx.thorough { vec![8, 16, 17, 31, 32, 33, 53, 54, 63, 64, 65, 90, 127, 128, 129, 130, 200, 255, 256, 257, 300] } else { vec![8, 16, 17, 32, 33, 54, 64, 65, 128, 129, 257] }),
             ]
         };
         let kinds: Vec<(&str, Vec<usize>)> = if *op == "law.elimall" {
-            vec![("B", vec![17, 54, 65])]
+            vec![("B", vec![17, 54, 65, 130])]
+        } else if *op == "law.deriv.many" {
+            vec![("E", if cx.thorough { vec![3, 6, 9, 10, 11, 12] } else { vec![6, 9, 11] })]
         } else if op.ends_with(".many") {
-            vec![("E", vec![12])]
+            vec![("E", if cx.thorough { vec![12, 20, 21, 22] } else { vec![12, 21] })]
         } else {
             kinds
         };
@@ -758,9 +808,11 @@ pub fn gen_laws(cx: &mut crate::gen::Ctx, prop: &str) {
         for (kind, sizes) in kinds {
             for n in sizes {
                 // expression quantification doubles the tree per variable; keep it small there
-                if kind == "E" && (op.starts_with("law.ex") || op.starts_with("law.fo") || op.starts_with("law.de")) && n > 17 {
+                if kind == "E" && !op.ends_with(".many") && (op.starts_with("law.ex") || op.starts_with("law.fo") || op.starts_with("law.de")) && n > 17 {
                     continue;
                 }
+                // one instance only at the cost wall of the enumerating algorithms
+                let seeds = if n >= 20 && (kind == "E" || (kind == "-" && n <= 21)) { 1 } else { seeds };
                 for k in 0..seeds {
                     // consecutive seeds, so that every residue class the recipes switch on occurs
                     let seed = (cx.rng.next() % 25000) * 4 + k as u64;
